@@ -64,6 +64,26 @@ package masswallet
 //@   trusted
 //@   requires w != nil && hash != nil
 //@   ensures mtx != nil ==> txWF(mtx)
+//@   ensures err == nil ==> mtx != nil
+
+// the transaction that created a credit of the current wallet, with the block it is mined in.  Assumed from the
+// store's persisted data: the outpoint is an output of that transaction.
+//@ func (*WalletManager).existsMsgTx
+//@   trusted
+//@   requires w != nil && out != nil
+//@   ensures err == nil ==> mtx != nil && txWF(mtx) && meta != nil && int(out.Index) < len(mtx.TxOut)
+//@   ensures err != nil ==> mtx == nil && meta == nil
+
+// ---- C10: withdrawal inputs carry the sequence consensus requires; C19: no panic for any input list ----
+//@ define seqOK(pks, seq, lockTime, warm) = ((pks.IsStaking() ==> seq == pks.Maturity()) && (!pks.IsStaking() && pks.IsBinding() && warm ==> seq == consensus.MASSIP0002BindingLockedPeriod) && (!pks.IsStaking() && !(pks.IsBinding() && warm) ==> (lockTime != 0 ==> seq == wire.MaxTxInSequenceNum-1) && (lockTime == 0 ==> seq == wire.MaxTxInSequenceNum)))
+//@ func (*WalletManager).constructTxIn
+//@   props C10 C19
+//@   requires wmWF(w)
+//@   requires forall qi_ int :: 0 <= qi_ && qi_ < len(inputs) ==> inputs[qi_] != nil
+//@   modifies rollbacks()
+//@   at "mtx.AddTxIn(txIn)" assert[C10] seqOK(pks, txIn.Sequence, lockTime, block != nil && forks.EnforceMASSIP0002WarmUp(block.Height))
+//@   loop#1 invariant mtx != nil && fresh(mtx) && len(mtx.TxIn) == iter_ && len(senders) == iter_ && fresh(senders) && validAmt(totalValue)
+//@   ensures[C10] result3 == nil ==> result0 != nil && len(result0.TxIn) == len(inputs) && len(result1) == len(inputs)
 //@ func (*NtfnsHandler).onRelevantTx
 //@   trusted
 //@   requires h != nil && rec != nil
